@@ -7,10 +7,10 @@ from .frontend import VERIF
 # property -> (technique, level text, level note)
 CLAIMS = {
     'C19': (
-        'static-storage inventory + who-may-write check over the type-resolved clang AST; libc deny-list',
+        'static-storage inventory + who-may-write check over the type-resolved clang AST (main and bundled configurations, aliases through stored addresses); libc deny-list; descriptor-release typestate',
         'static analysis: exhaustive inventory of every object with static storage duration in the library and of '
         'every site that writes one; decides clause C19-a/b (no library-owned memory is shared between contexts '
-        'except the logging settings, no process-global libc call). Races inside dependencies and result equality '
+        'except the logging settings, no process-global libc call) and C19-c (a closed descriptor number is never kept in a context). Races inside dependencies and result equality '
         'with the serial run are not decided.',
         'trusted: clang 14 front end; write sites are recognised as assignments/increments rooted at the object or '
         'the object passed through a pointer-to-non-const parameter'),
@@ -18,11 +18,11 @@ CLAIMS = {
 
 CLAIMS['C12'] = (
     'call-site error-discipline analysis: path-sensitive abstract interpretation (sign/class domain) of every '
-    'caller of the I/O-failure closure; -Werror=unused-result compile-fail witness',
+    'caller of the I/O-failure closure; -Werror=unused-result compile-fail witness; write-retry continuation rule (result symbols, bounded unrolling)',
     'static analysis: for each of ~170 call sites whose callee can fail because of read/write/lseek/ftruncate, '
     'follows the failure classes of the callee\'s return convention (and short counts of read()/write()) through '
     'the caller on all CFG paths and shows they cannot reach a success exit; callee-side convention check; '
-    'compile-fail witness for dropped must-check results. Decides the error-propagation mechanism of C12 in '
+    'compile-fail witness for dropped must-check results; C12-e: a retried write passes source + result and count - result. Decides the error-propagation mechanism of C12 in '
     'library and tools, not faults inside dependencies, close() results or deferred ENOSPC.',
     'trusted: clang 14 front end; frozen return-convention table (checked against inferred return classes); '
     'external summaries of read/write/lseek/ftruncate; value classes {-1,<-1,0,1,>1}')
